@@ -100,6 +100,8 @@ def run_case(prop, case, known):
     """Execute one case. Returns (violation-record|None, ctx, harness_error|None)."""
     ctx = Ctx(prop.ID, known)
     try:
+        from . import boot
+        boot.reset_run_state()
         prop.execute(case, ctx)
         return None, ctx, None
     except Violation as v:
